@@ -30,15 +30,24 @@ type cfg struct {
 	Allowed int64
 	W       int    // seconds
 	Alloc   string // "none" | "allow" | "block" | "default25"
+	// Resize: the alphabet has an event that changes remedy r1's window size (W <-> 2W), as a
+	// policy reload between two requests does
+	Resize bool
 }
 
-func (c cfg) String() string { return fmt.Sprintf("allowed=%d W=%ds alloc=%s", c.Allowed, c.W, c.Alloc) }
+func (c cfg) String() string {
+	s := fmt.Sprintf("allowed=%d W=%ds alloc=%s", c.Allowed, c.W, c.Alloc)
+	if c.Resize {
+		s += " +window-size-changes"
+	}
+	return s
+}
 
 var groups = []string{"A", "B", "Z", "a", ""} // Z = unknown value, a = unknown value that differs from a listed one only in case, "" = header absent
 var pct = map[string]int64{"A": 50, "B": 25}
 
 type event struct {
-	kind   string // "req" | "tick"
+	kind   string // "req" | "tick" | "resize"
 	remedy int
 	group  string
 	tick   string // "half" | "boundary" | "1ns" | "W"
@@ -51,6 +60,9 @@ func (e event) String() string {
 			g = "-"
 		}
 		return fmt.Sprintf("req(r%d,%s)", e.remedy+1, g)
+	}
+	if e.kind == "resize" {
+		return "resize(r1: W<->2W)"
 	}
 	return "tick(" + e.tick + ")"
 }
@@ -65,6 +77,16 @@ func alphabet(c cfg) []event {
 		for _, g := range gs {
 			ev = append(ev, event{kind: "req", remedy: r, group: g})
 		}
+	}
+	if c.Resize {
+		// fewer letters elsewhere: one unlisted group value is enough here
+		var keep []event
+		for _, e := range ev {
+			if e.group != "a" && e.group != "B" {
+				keep = append(keep, e)
+			}
+		}
+		ev = append(keep, event{kind: "resize"})
 	}
 	for _, t := range []string{"boundary", "1ns", "half", "W"} {
 		ev = append(ev, event{kind: "tick", tick: t})
@@ -103,6 +125,13 @@ type model struct {
 	ref     map[string]int64 // "remedy/group" -> passes in window refWin[key]
 	refWin  map[string]int64
 	nextReq int
+	// window-size changes of r1: its current size, the instant of the last change, the first
+	// grid boundary of the new size after it, and the passes since the change per group
+	w0       time.Duration
+	resizes  int                  // number of size changes so far
+	seen     map[string]int       // per (remedy, group): the number of changes it has been asked under
+	resumeAt map[string]time.Time // per (remedy, group): end of its transition (see Apply)
+	since    map[string][]time.Time
 }
 
 func newModel(c cfg) *model {
@@ -113,7 +142,15 @@ func newModel(c cfg) *model {
 		panic(err)
 	}
 	return &model{c: c, alpha: alphabet(c), plugin: p, state: st, rem: [2]*sharedConfig.Remedy{remedy(c, 0), remedy(c, 1)},
-		ref: map[string]int64{}, refWin: map[string]int64{}}
+		ref: map[string]int64{}, refWin: map[string]int64{}, w0: time.Duration(c.W) * time.Second, since: map[string][]time.Time{}, seen: map[string]int{}, resumeAt: map[string]time.Time{}}
+}
+
+// wOf: the window size remedy i is configured with right now
+func (m *model) wOf(i int) time.Duration {
+	if i == 0 {
+		return m.w0
+	}
+	return m.W()
 }
 
 func (m *model) W() time.Duration { return time.Duration(m.c.W) * time.Second }
@@ -134,6 +171,16 @@ func (m *model) Apply(ei int) string {
 			d = m.W() - into
 		}
 		time.Sleep(d)
+		return ""
+	}
+	if e.kind == "resize" {
+		if m.w0 == m.W() {
+			m.w0 = 2 * m.W()
+		} else {
+			m.w0 = m.W()
+		}
+		m.rem[0].Config.StrategyBasedThrottling.WindowSizeInSeconds = int(m.w0 / time.Second)
+		m.resizes++
 		return ""
 	}
 	m.nextReq++
@@ -178,12 +225,43 @@ func (m *model) Apply(ei int) string {
 		return ""
 	}
 	key := fmt.Sprintf("r%d/%s", e.remedy+1, e.group)
-	win := time.Now().UnixNano() / int64(m.W())
+	if now := time.Now(); e.remedy == 0 && m.resizes > 0 {
+		if m.seen[key] != m.resizes {
+			// the first request of this (remedy, group) since the size changed: the state
+			// learns of the change now; what it counted under the old size may stay counted
+			// until the aligned window of the new size that contains this request ends
+			m.seen[key] = m.resizes
+			m.resumeAt[key] = time.Unix(0, (now.UnixNano()/int64(m.w0)+1)*int64(m.w0))
+			m.since[key] = nil
+			delete(m.ref, key)
+			delete(m.refWin, key)
+		}
+		if now.Before(m.resumeAt[key]) {
+			// transition: only the bound is asserted, on the requests handled since the
+			// change: those that passed inside the current aligned window of the new size
+			// must stay within the share
+			ws := time.Unix(0, now.UnixNano()/int64(m.w0)*int64(m.w0))
+			n := int64(0)
+			for _, ts := range m.since[key] {
+				if !ts.Before(ws) {
+					n++
+				}
+			}
+			if !blocked {
+				if n >= lim {
+					return fmt.Sprintf("OVER-LIMIT:after-window-size-change %s passed at +%v into the aligned %v window: %d of %d requests handled since r1's window size changed had already passed in that window", e, now.Sub(ws), m.w0, n, lim)
+				}
+				m.since[key] = append(m.since[key], now)
+			}
+			return ""
+		}
+	}
+	win := time.Now().UnixNano() / int64(m.wOf(e.remedy))
 	if m.refWin[key] != win {
 		m.refWin[key], m.ref[key] = win, 0
 	}
 	wantBlocked := m.ref[key] >= lim
-	into := time.Duration(time.Now().UnixNano() % int64(m.W()))
+	into := time.Duration(time.Now().UnixNano() % int64(m.wOf(e.remedy)))
 	if blocked != wantBlocked {
 		if blocked {
 			return fmt.Sprintf("SPURIOUS-REJECT %s rejected at +%v into grid window %d although only %d of %d passed in it", e, into, win, m.ref[key], lim)
@@ -200,12 +278,36 @@ func (m *model) Key() string {
 	now := time.Now()
 	var rs []string
 	for k, v := range m.ref {
-		if m.refWin[k] == now.UnixNano()/int64(m.W()) {
+		w := m.W()
+		if strings.HasPrefix(k, "r1/") {
+			w = m.w0
+		}
+		if m.refWin[k] == now.UnixNano()/int64(w) {
 			rs = append(rs, fmt.Sprintf("%s=%d", k, v))
 		}
 	}
 	sort.Strings(rs)
-	return fmt.Sprintf("phase=%d|%s|%s", now.UnixNano()%int64(m.W()), limit.VerifDump(m.state, now), strings.Join(rs, ","))
+	rz := ""
+	if m.c.Resize {
+		rz = fmt.Sprintf("|w0=%v", m.w0)
+		var ps []string
+		for k, g := range m.seen {
+			if g != m.resizes {
+				continue
+			}
+			if ra := m.resumeAt[k]; now.Before(ra) {
+				ps = append(ps, fmt.Sprintf("%s:resume-in=%v", k, ra.Sub(now)))
+				for _, ts := range m.since[k] {
+					ps = append(ps, fmt.Sprintf("%s@%v", k, now.Sub(ts)))
+				}
+			} else {
+				ps = append(ps, k+":settled")
+			}
+		}
+		sort.Strings(ps)
+		rz += "," + strings.Join(ps, ",")
+	}
+	return fmt.Sprintf("phase=%d|%s|%s%s", now.UnixNano()%int64(2*m.W()), limit.VerifDump(m.state, now), strings.Join(rs, ","), rz)
 }
 
 func configs() []cfg {
@@ -213,14 +315,22 @@ func configs() []cfg {
 	for _, a := range []int64{1, 2, 3} {
 		for _, w := range []int{1, 2} {
 			for _, al := range []string{"none", "allow", "block", "default25"} {
-				cs = append(cs, cfg{a, w, al})
+				cs = append(cs, cfg{a, w, al, false})
+			}
+		}
+	}
+	// window-size changes between requests
+	for _, a := range []int64{1, 2} {
+		for _, w := range []int{1, 2} {
+			for _, al := range []string{"none", "default25"} {
+				cs = append(cs, cfg{a, w, al, true})
 			}
 		}
 	}
 	// a window length that does not divide a day (grid origin matters)
 	for _, a := range []int64{1, 2} {
 		for _, al := range []string{"none", "default25"} {
-			cs = append(cs, cfg{a, 7, al})
+			cs = append(cs, cfg{a, 7, al, false})
 		}
 	}
 	return cs
@@ -235,7 +345,7 @@ func TestCheck(t *testing.T) {
 		return
 	}
 	r.Rule = fmt.Sprintf("explicit-state BFS to depth %d over histories of {req(remedy r1|r2, group A|B|Z|absent), tick(to the next grid boundary exactly | 1ns | W/2 | W)} for %d configurations (allowed 1-3, W 1, 2 and 7 s, allocation none / table with default allow|block|use_default_allocation); every transition runs the real plugin (fresh instance + replay) in a virtual-time bubble; plus the exhaustive allocation table allowed 1..300 x pct 1..100 and all schedules (<=2 preemptions) of 3 concurrent first requests on one key; distinct = state keys (implementation dump + reference + phase)", depth, len(cs))
-	r.Assume("window-size changes between requests are not part of this run's alphabet", "virtual time via testing/synctest; the plugin's clock is clock.RealClock inside the bubble")
+	r.Assume("window-size changes (8 further configurations: r1's window toggles between W and 2W): per (remedy, group), from the change until the end of the aligned window of the new size that contains its first request after the change, only the bound is asserted (on the requests handled since the change); after that full exactness", "virtual time via testing/synctest; the plugin's clock is clock.RealClock inside the bubble")
 	if r.Parallel(t, 16) {
 		r.Finish(t)
 		return
@@ -330,7 +440,7 @@ func schedules(t *testing.T, r *mc.Run) {
 				clk := clock.NewRealClock()
 				st := limit.NewRateLimitState(clk, logging.ContextLogger{})
 				p, _ := remedies.NewStrategyBasedThrottlingPlugin(context.Background(), clk, nil, st, obfuscation.Obfuscator{Hasher: obfuscation.MD5Hasher{}})
-				rem := remedy(cfg{lim, 1, "none"}, 0)
+				rem := remedy(cfg{Allowed: lim, W: 1, Alloc: "none"}, 0)
 				rs := &res{}
 				x.Vals["res"] = rs
 				for i := 0; i < 3; i++ {
